@@ -18,5 +18,7 @@ for part in parts[1:]:
         out.append(f"{title}\n*(as built; written by the property's builder, file design/{pid}.md)*\n\n{body}\n\n")
     else:
         out.append(part)
+head = head.replace("Status of this document: sections 0–12 were written before any framework code (the plan); section 13 records what\nwas built and supersedes the plan where they differ.",
+    "Status of this document: sections 0–7 and 9–12 were written before any framework code (the plan); section 8 has been\nreplaced by the builders' as-built descriptions (design/Cxx.md), and section 13 records what was built (status tables,\nrepaired and open defects, seeded changes, harmless rewrites, audits) and supersedes the plan where they differ.")
 open(p, 'w').write(head + ''.join(out) + tail)
 print("inlined:", [x[4:7] for x in parts[1:] if os.path.exists(f'/verif/design/{x[4:7]}.md')])
